@@ -278,12 +278,15 @@ def run_one(drv, rng, V, stats, scenario, n_resets, wseed):
             for net in sorted(co._networks, key=str):
                 for src in sorted(v_now.controlled_hosts, key=str)[:2]:
                     act = Action(ActionType.ScanNetwork, {"source_host": src, "target_network": net})
-                    try:
-                        nv = world_step(co, v_now, act)
-                    except Exception:
-                        break
                     m = drv.ask({"op": "step", "view": C.view2j(v_now), "action": C.action2j(act)})
                     stats["walk_steps"] += 1
+                    try:
+                        nv = world_step(co, v_now, Action.from_json(act.to_json()))
+                    except Exception as e:
+                        if not m["raised"]:
+                            V.fail("scan-after-relabel-refused", f"after re-labelling {r + 1} in {scenario}, scanning the network {net} exactly as it is labelled now (from {src}) cannot be processed: {e!r}",
+                                   dict(rep, view=C.view2j(v_now), action=C.action2j(act)))
+                        break
                     if m["raised"] or C.canon_view(m["view"]) != C.canon_view(C.view2j(nv)):
                         lost = sorted(set(map(str, C.canon_view(m["view"])["known"])) ^ set(map(str, C.canon_view(C.view2j(nv))["known"]))) if not m["raised"] else []
                         V.fail("scan-after-relabel", f"after re-labelling {r + 1} in {scenario}, scanning {net} from {src} does not reveal what the model reveals on the re-labelled tables (hosts in one result only: {[str(C.n2ip(int(x))) for x in lost][:4]})",
